@@ -60,7 +60,7 @@ var (
 	encKey = bytes.Repeat([]byte{0x42}, 32)
 
 	tokValueLabels = []string{"bool", "int0", "int1", "int-1", "int53max", "int53min", "float1.5", "float1.0", "float-0", "float-min", "float-max",
-		"str-empty", "str-ascii", "str-utf8", "bytes-empty", "bytes", "list", "map", "link", "null"}
+		"str-empty", "str-ascii", "str-utf8", "str-latin1", "bytes-empty", "bytes", "list", "map", "link", "null"}
 
 	timeLabels = []string{"absent", "whole", "subsec", "in-past", "2^53-1", "2^53", "y9999", "maxtime", "zero", "epoch", "unix-1", "unix1", "subsec-up", "zone+5h30", "zone-11h-subsec", "dst-repeat-west-1st", "dst-repeat-west-2nd", "dst-repeat-east-1st", "dst-repeat-east-2nd"}
 )
@@ -95,6 +95,8 @@ func tokValue(label string) any {
 		return "abc"
 	case "str-utf8":
 		return "héllo→日本"
+	case "str-latin1": // a Go string that is not valid UTF-8 (legacy-encoded text): constructors accept any Go string
+		return "caf\xe9 \xff"
 	case "str-astral": // characters of 1, 2, 3 and 4 bytes, the 4-byte ones at several alignments
 		return "a\U0001F600é\U0001D11E→\U0001F600\U0001F601x\U00010000"
 	case "bytes-empty":
